@@ -79,6 +79,7 @@ fmt.Println t.mul(3), t.mul("c"), i.m(), g("q"), U{}.b
 var xgoPkgs = []Pkg{
 	one("symbols", symbols),
 	one("script", "x := [1, 2, 3]\necho [v*v for v <- x if v > 1]\nm := {\"a\": 1, \"b\": 2}\nfor k, v <- m {\n\techo k, v\n}\n"),
+	one("lowered-twice", "func app(f func(int, int) int) int {\n\treturn f(1, 2)\n}\n\nfor i <- 5:0:-1 {\n\techo i\n}\nfor i <- 0:10:2 {\n\techo i\n}\necho [[a, b] for a <- [1, 2] for b <- [3, 4]]\necho {a + b: a for a <- [1, 2] if b > a for b <- [3, 4]}\nx := [1, 2, 3]\nx <- 4, 5\ny := \"${x[0]}\"\necho y, len(x[1:])\necho app((a, b) => a + b)\n"),
 	{"two-files", map[string]string{
 		"a.xgo": "var av = bf() + 1\n\nfunc af() int { return bv }\n\ntype AT struct{ B *BT }\n\necho av, af()\n",
 		"b.xgo": "var bv = 2\n\nfunc bf() int { return 3 }\n\ntype BT struct{ A *AT }\n\nfunc init() { echo \"b\" }\n",
